@@ -1460,6 +1460,21 @@ class Evaluator:
             return v
         if v and v[0] in ('un', 'not', 'bin', 'cast', 'discr'):
             return tuple(self.imm_norm(x, depth + 1, st) for x in v)
+        if v and v[0] == 'call' and len(v) == 4 and v[2] in ('future::FutureState::is_waiting', 'future::FutureState::is_done') and st is not None \
+                and len(v[3]) == 1 and isinstance(v[3][0], tuple) and v[3][0][0] in ('ref', 'rawptr') and isinstance(v[3][0][1], tuple):
+            # a pure predicate of the future's state, asked twice on a path: the answers agree unless the state was written between
+            pl = v[3][0][1]
+            bq = mem_base_path(pl) if pl[0] in ('pfield', 'pdown') else None
+            if bq is not None:
+                ver = 0
+                for e in st.events:
+                    if e.kind == 'call' and e.val == v:
+                        break
+                    if e.kind == 'wr' and isinstance(e.place, tuple):
+                        be = mem_base_path(e.place)
+                        if be is not None and be[0] == bq[0] and mem_overlap(be, bq):
+                            ver += 1
+                return ('purecall', v[2], pl, ('ver', ver))
         return v
 
     def emit(self, st, end):
@@ -1887,6 +1902,17 @@ def classify(d, val, listed):
         if val is None and listed == ['0']:
             return (short, 'F')
         return ('unrec:count-match', 'T')
+    pollq = poll_query(d)
+    if pollq is not None:
+        # `sig.poll().is_ready()` / `.is_pending()`: the boolean spelling of `match sig.poll() { Ready(_) | Pending }`
+        lab0, pos = pollq
+        if val is None:
+            truth0 = True if listed == ['0'] else (False if listed == ['1'] else None)
+        else:
+            truth0 = (val != '0')
+        if truth0 is None:
+            return (None, None)
+        return (lab0, 'Ready' if truth0 == pos else 'Pending')
     r = classify_bool_expr(d)
     if r is None:
         return (None, None)
@@ -1903,6 +1929,20 @@ def classify(d, val, listed):
         truth = (val != '0')
     out = truth if pol else (not truth)
     return (lab, 'T' if out else 'F')
+
+
+def poll_query(d):
+    """d == Poll::is_ready(&x) / Poll::is_pending(&x) (possibly negated) with x a labelled poll call -> (label, True if d <=> Ready)"""
+    neg = False
+    while d[0] == 'un' and d[1] == 'Not':
+        d = d[2]
+        neg = not neg
+    if d[0] == 'call' and d[2] in ('std::task::Poll::is_ready', 'std::task::Poll::is_pending') and d[3]:
+        x = strip_ref_value(d[3][0])
+        if x is not None and x[0] == 'call' and x[2] in ('signal::Signal::poll', 'std::future::Future::poll'):
+            pos = d[2].endswith('is_ready')
+            return (discr_label(x), pos != neg)
+    return None
 
 
 def discr_label(v):
